@@ -2,10 +2,13 @@
 //
 // One case = one scenario = (import graph written as a file set, one fault, importer mode).
 //   * generator: import graphs as small CellML 2.0 files (IR below), either a member of the finite family
-//     FAM(<=3 files, <=2 exported entities per file) or a random graph with up to 6 files;
+//     FAM(<=3 files, <=2 exported entities per file; enumGraphs) or a random graph with up to 6 files (randomGraph);
 //   * reference resolver (struct Ref): works on the IR + per-file on-disk state only, never on libcellml objects;
 //   * fault injector (enumerateFaults/applyFault);
-//   * monitors (runScenario).
+//   * monitors (scenarioBody); scenarios that can run away (import cycles, plain units cycles, imports that are not
+//     on a pure import chain from the root) are executed in a forked child (runIsolated) so that stack exhaustion
+//     and non-termination get keys naming the operation, the fault class and the position of the failing import.
+// See notes/C07.md.
 #include "mutate.h"
 #include "vh.h"
 #include "vhc.h"
@@ -1154,7 +1157,15 @@ ChildResult runIsolated(const std::function<void()> &body)
         }
     }
     int status = 0;
-    while (waitpid(pid, &status, 0) < 0 && errno == EINTR) {
+    struct rusage ru;
+    memset(&ru, 0, sizeof ru);
+    while (wait4(pid, &status, 0, &ru) < 0 && errno == EINTR) {
+    }
+    {
+        // how close do scenarios come to the CPU budget?  (evidence: distinct buckets seen, counters per bucket)
+        double cpu = static_cast<double>(ru.ru_utime.tv_sec + ru.ru_stime.tv_sec) + static_cast<double>(ru.ru_utime.tv_usec + ru.ru_stime.tv_usec) / 1e6;
+        const char *bucket = cpu < 0.25 ? "<0.25s" : cpu < 0.5 ? "<0.5s" : cpu < 1.0 ? "<1s" : cpu < 2.0 ? "<2s" : cpu < 3.0 ? "<3s" : ">=3s";
+        stat(std::string("child_cpu:") + bucket);
     }
     // replay the child's records
     size_t pos = 0;
